@@ -112,6 +112,43 @@ def t_step(tf):
     return t
 
 
+def t_step_two_symbols(tf):
+    """two symbols in the step simulator: the candle stored for a symbol at a window end is generated from THAT symbol's minutes"""
+    def t(h):
+        sim.lib_time(h)
+        cnt = K.MINUTES[tf]
+        syms = ('BTC-USDT', 'ETH-USDT')
+        S = sim.build(h, symbols=syms, timeframes=('1m', tf), route_tfs=(tf,))
+        key = (f'{BM}._step_simulator', 0)
+
+        def start(interp, fr, i):
+            del S.events[:]
+            del S.reads[:]
+
+        def end(interp, fr, i):
+            gens = [e for e in S.events if e[0] == 'generate']
+            adds = [e for e in S.events if e[0] == 'add_candle' and e[1][3] == tf]
+            at_end = ops.equal(ops.arith('%', ops.arith('+', i, 1), cnt), 0)
+            if h.branch(at_end):
+                ok = len(gens) == 2 and sorted(a[1][2] for a in adds) == sorted(syms)
+                h.prove(ok, 'step.2sym.one-candle-per-symbol-generated-and-stored-at-each-window-end')
+                if ok:
+                    for a in adds:
+                        g = [g_ for g_ in gens if g_[1][3] is a[1][0]]
+                        h.prove(len(g) == 1, 'step.2sym.generated-candle-is-what-gets-stored')
+                        if len(g) == 1:
+                            window_ok(h, g[0][1][1], S.inputs[a[1][2]], ops.arith('-', ops.arith('+', i, 1), cnt), ops.arith('+', i, 1), 'step.2sym')
+            else:
+                h.prove(len(gens) == 0 and len(adds) == 0, 'step.2sym.nothing-generated-inside-a-window')
+        h.ctx.cfg.extra['loop_hooks'] = {key: {'start': start, 'end': end}}
+        h.ctx.cfg.extra['havoc'] = {key: {'last_update_time': lambda i, old: Opaque('t')}}
+        h.ctx.cfg.invariants[key] = []
+        h.cover('step.2sym.pre')
+        out = h.outcome(f'{BM}._step_simulator', S.candles, True)
+        h.prove(out.ok, 'step.2sym.no-exception', {'raised': out.exc})
+    return t
+
+
 def t_fast(tf, step):
     def t(h):
         cnt = K.MINUTES[tf]
@@ -407,6 +444,7 @@ def tasks(tier):
     if True:
         # the whole finite domain: 2^17 - 1 subsets, concrete evaluation of the real function (complete, not bounded)
         ts.append(Task('min-step.all-subsets', t_min_step('all'), overrides=dict(ov), extra=dict(x, task_timeout_s=3600)))
+    ts.append(Task('step.2sym.5m', t_step_two_symbols('5m'), extra=dict(x), overrides=dict(ov), invariants={}))
     ts.append(Task('fixed-jump', t_fixed_jump, extra=dict(x), overrides=dict(ov)))
     # the 1m candle stored by the match loop is the whole minute (not what a fill left over): shared with C02
     import props.C02 as P2
